@@ -174,7 +174,7 @@ func locName(l interface{}) string {
 // hbCheck decides, with the solver, whether some conflicting pair is unordered.
 func (e *Engine) hbCheck() {
 	h := e.hb
-	if h == nil || !h.on {
+	if h == nil || !h.on || !e.relevantMsg("C20: no data race") {
 		return
 	}
 	tb := e.tb
